@@ -1006,14 +1006,14 @@ class Canon:
         if isinstance(st, ast.Return):
             return [("ret", self.expr(st.value) if st.value is not None else K_NONE)]
         if isinstance(st, ast.If):
-            c = self.expr(st.test)
+            c = _truth(self.expr(st.test))
             return [mk_if(c, self.block(st.body), self.block(st.orelse))]
         if isinstance(st, (ast.For, ast.AsyncFor)):
             it = self.expr(st.iter)
             tgt = self.expr_store(st.target)
             return [("for", tgt, it, _continue_to_else(self.block(st.body)), self.block(st.orelse))]
         if isinstance(st, ast.While):
-            return [("while", self.expr(st.test), _continue_to_else(self.block(st.body)), self.block(st.orelse))]
+            return [("while", _truth(self.expr(st.test)), _continue_to_else(self.block(st.body)), self.block(st.orelse))]
         if isinstance(st, ast.Assert):
             return [("assert", self.expr(st.test))]
         if isinstance(st, ast.Raise):
@@ -1121,6 +1121,26 @@ def _strip_tail_returns(block: tuple) -> tuple:
     return block
 
 
+def _truth(c: S) -> S:
+    """a test: ``len(x) > 0`` asks whether the container x is non-empty, which is what ``x`` itself asks"""
+    if isinstance(c, tuple) and c:
+        if c[0] == "lt0":
+            p = to_poly(c[1])
+            if len(p.t) == 1:
+                (m, coef), = p.t.items()
+                if coef == -1 and len(m) == 1 and m[0][1] == 1 and isinstance(m[0][0], tuple) and m[0][0][:2] == ("c", ("g", "len")) \
+                        and len(m[0][0][2]) == 1 and not m[0][0][3]:
+                    return m[0][0][2][0]
+            return c
+        if c[0] == "not":
+            return mk_not(_truth(c[1]))
+        if c[0] == "and":
+            return mk_and([_truth(x) for x in c[1]])
+        if c[0] == "or":
+            return mk_or([_truth(x) for x in c[1]])
+    return c
+
+
 def _merge_guard_chain(stmts: list[S]) -> list[S]:
     """Normal form of conditionals with an exiting arm, then merging of guard chains.
 
@@ -1130,6 +1150,19 @@ def _merge_guard_chain(stmts: list[S]) -> list[S]:
     * ``if c1: return v`` ; ``if c2: return v``  ==>  ``if c1 or c2: return v`` (consecutive guards with an identical
       exiting body and no else-branch)."""
     def guard(c: S, body: tuple, follow: list) -> list:
+        # both ways end with the same statements (the same computed value is returned): those come once, after the conditional
+        if _ends_in_exit(body) and _ends_in_exit(follow):
+            k = 0
+            while k < len(body) and k < len(follow) and body[len(body) - 1 - k] == follow[len(follow) - 1 - k]:
+                k += 1
+            last = body[-1]
+            if k and last[0] == "ret" and not (isinstance(last[1], tuple) and last[1][:1] == ("k",)):
+                b1, b2, common = tuple(body[:len(body) - k]), tuple(follow[:len(follow) - k]), list(follow[len(follow) - k:])
+                if not b1 and not b2:
+                    return ([("expr", c)] if _has_effectful_call(c) else []) + common
+                if not b1:
+                    return _merge_guard_chain([("if", mk_not(c), b2, ())]) + common
+                return _merge_guard_chain([mk_if(c, b1, b2)]) + common
         g = ("if", c, tuple(body), ())
         # if a: (if b: T; R); R   ==   if a and b: T; R
         while g[2] and isinstance(g[2][0], tuple) and len(g[2][0]) == 4 and g[2][0][0] == "if" and g[2][0][3] == () \
